@@ -352,7 +352,7 @@ def group_level(rep, tier, timeout):
     s2.update({"thickness_cp": np.array([0.1]), "twist_cp": np.zeros(1)})
     for surfs in ([s1], [s1, s2]):
         names = [x["name"] for x in surfs]
-        AS = groups.aerostruct_symbolic(surfs if len(surfs) > 1 else surfs[0])
+        AS = groups.aerostruct_symbolic(surfs if len(surfs) > 1 else surfs[0], rep=rep)
         AS.encode(rep)
         v = lambda n: AS.get(n)
         P = "AS_point_0."
